@@ -37,7 +37,7 @@ func (x *Exec) call(st *State, fr *frame, site ssa.Instruction, cc *ssa.CallComm
 		name := "(" + ifn + ")." + cc.Method.Name()
 		if con := s.Spec.Contracts[name]; con != nil {
 			sig := cc.Method.Type().(*types.Signature)
-			x.applyContract(st, fr, con, name, sig, nil, append([]Val{recv}, args...), k)
+			x.applyContract(st, fr, con, name, sig, nil, append([]Val{recv}, args...), x.captureResult(name, k))
 			return
 		}
 		// error.Error() on an error value
@@ -86,6 +86,34 @@ func (x *Exec) call(st *State, fr *frame, site ssa.Instruction, cc *ssa.CallComm
 
 func ifaceName(t types.Type) string {
 	return types.TypeString(types.Unalias(t), nil)
+}
+
+// captureResult wraps a continuation so that `capture` directives naming this callee (results only) are bound.
+func (x *Exec) captureResult(name string, k func(st *State, v Val)) func(st *State, v Val) {
+	if x.con == nil {
+		return k
+	}
+	for _, c := range x.con.Captures {
+		if c.Callee != name || !strings.HasPrefix(c.What, "result") {
+			continue
+		}
+		cc := c
+		prev := k
+		k = func(st *State, v Val) {
+			if _, done := st.caps[cc.Name]; !done && v != nil {
+				cv := v
+				if strings.HasPrefix(cc.What, "result[") {
+					i, _ := strconv.Atoi(strings.TrimSuffix(cc.What[7:], "]"))
+					if r, ok := v.(Rec); ok && i < len(r.F) {
+						cv = r.F[i]
+					}
+				}
+				st.caps[cc.Name] = cv
+			}
+			prev(st, v)
+		}
+	}
+	return k
 }
 
 func (x *Exec) callFunc(st *State, fr *frame, site ssa.Instruction, fn *ssa.Function, args []Val, bind []Val, k0 func(st *State, v Val)) {
